@@ -80,3 +80,38 @@ def arg_value(m, st, tid, t, pb, argname):
             if p == "iter::Bytes":
                 raise Unanalysable("root taking &mut Bytes needs the benchable harness")
     raise Unanalysable("cannot build an abstract argument of type %s" % t["s"])
+
+
+def bytes_state(m, inst_id, window="any"):
+    """Initial state for a function taking `&mut Bytes`: an arbitrary cursor state reachable
+    through the safe API (start <= cursor <= end, any amount of uncommitted input behind)."""
+    prog = m.p
+    pb = prog.ptr_bytes * 8
+    st = State()
+    st.chain = ["B"]
+    st.cur_gap = (0, False)
+    st.w_old = (1 << 256) - 1
+    st.w_old_len = (0, False)
+    st.w_first = ("m", (1 << 256) - 1)
+    bt = None
+    for i, t in enumerate(prog.types):
+        if t and t["k"] == "adt" and M.norm_path(t["path"]) == "iter::Bytes":
+            bt = t
+    if bt is None:
+        raise Unanalysable("anchor missing: type iter::Bytes")
+    cur = st.cur_tok()
+    vals = []
+    for f in bt["variants"][0]["fields"]:
+        if f["name"] == "start":
+            vals.append(("ptr", ("B", (("B", 1),), 0)))
+        elif f["name"] == "end":
+            vals.append(("ptr", ("B", (("E", 1),), 0)))
+        elif f["name"] == "cursor":
+            vals.append(("ptr", ("B", ((cur, 1),), 0)))
+        else:
+            vals.append(("agg", ()))
+    st.heap["BYTES"] = ("agg", tuple(vals))
+    st.flags["bytes_new"] = 1
+    st.flags["w_start"] = ("B", (("B", 1),), 0)
+    m.push_frame(st, inst_id, [("ptr", ("H", "BYTES", ()))], None, None)
+    return st
